@@ -38,6 +38,9 @@ def parse_query(src: str) -> ast.AST:
         def visit_Name(self, n):
             if n.id == "ds":
                 return ast.Call(func=ast.Name("EventDataset", ast.Load()), args=[], keywords=[])
+            if n.id in ("NEGONE", "NEGHALF", "NEGBIG"):
+                # negative constants as constant NODES (a captured variable off = -1), not as unary minus applied to a literal
+                return ast.Constant({"NEGONE": -1, "NEGHALF": -0.5, "NEGBIG": -2147483647}[n.id])
             if n.id == "NEGZERO":
                 # no Python literal denotes the constant -0.0 ("-0.0" is a unary minus): a captured variable does
                 return ast.Constant(-0.0)
